@@ -247,6 +247,13 @@ class Ops:
                 return I(d, "isize")
         if k == "ite":
             return self.ite(v[1], self.discr(v[2]), self.discr(v[3]))
+        if k == "next" and len(v) == 3 and isinstance(v[2], int):
+            # the (k+1)-th pull from an iteration over a constant array of known length is Some exactly while k < length
+            a = v[1]
+            while a[0] in ("ref", "iter"):
+                a = a[1]
+            if a[0] == "array":
+                return I(1 if v[2] < len(a[1]) else 0, "isize")
         return ("discr", v)
 
     def ite(self, c, a, b):
